@@ -7,6 +7,17 @@ TRUST = ("TLC 1.8 evaluates the TLA+ judge; harness/lib.py projections (real obj
          "of abstract cases are trusted; bounds as stated in the evidence file")
 
 CHECKS = {
+ "C18": dict(
+    text="Dsu.tla specifies the disjoint-set structure twice: abstractly (the partition, merged by union) and concretely (parent / rank with recursive path "
+         "compression and union by rank, as the code does it); TLC explores every history of union / find / same on 4 elements with the union history tracked "
+         "(joined exactly when the performed unions connect them) and on 6-7 elements against the abstract partition (finite state space, no depth bound), and "
+         "rejects the named deviation (linking elements instead of roots). Checkers.tla states connectivity, cyclicity, parents-precede and at-most-two-children "
+         "declaratively for every parent table; MC_Checkers transcribes the pointer-jumping loop of get_dsu and has_cyclic over the concrete structure and TLC "
+         "checks both terminate with the declarative answer on every table; the 'nearest' repair algorithm is checked at specification level on every forest "
+         "(deviation without label merging rejected). Conformance: every generated history is replayed on a real DisjointSetUnion and validated event by event "
+         "(Trace_Dsu, representatives read back after every call), traces of the structure inside has_cyclic are recorded and validated, every table is put to the "
+         "four checkers under a timeout and every forest through read_swc(fix_roots=...) and the normaliser functions, judged by TLC",
+    design="4/C18", technique="TLA+ state machine of the disjoint-set structure explored exhaustively + trace validation of real call histories; declarative checker/repair specs judged by TLC on every table/forest; algorithm layers (pointer jumping, has_cyclic, nearest repair) model-checked incl. termination"),
  "C01": dict(
     text="SwcIO.tla specifies the writer (source header, comment normalisation, column header, one row per node with shifted ids, the root's -1 kept, "
          "floats printed as the value rounded half-even to four decimals) and the reader; TLC checks at specification level that reading the writer's "
